@@ -10,6 +10,7 @@ import Jamm.Proofs.CursorLemmas
 import Jamm.Proofs.FileCheckLemmas
 import Jamm.Proofs.CommitCompose
 import Jamm.Proofs.EncodeTreeLemmas
+import Jamm.Proofs.TreeDBLemmas
 import Jamm.Gen.Layout
 set_option linter.unusedSectionVars false
 open Std
@@ -137,5 +138,52 @@ theorem written_tree_is_local (pagesize : Nat) (ov : Nat → Nat) (t : Tree Byte
     (h : ∀ r ∈ nodeRunsT ov t, i < r.1 * pagesize ∨ (r.1 + r.2 + 1) * pagesize ≤ i) :
     (writeTreeT Gen.layout pagesize ov t s).get i = s.get i :=
   (writeTree_frame Gen.layout pagesize (by decide) ov t s i hfit h).1
+
+/-! ## The API layer: the database as the code holds it — every bucket a B+tree, the public operations the
+control flow of `bucket.rs` over the tree operations (`Model/TreeDB.lean`) — refines the reference nested
+ordered map: same return values and error kinds, same contents, counters and bucket structure, at every
+nesting depth, for every sequence of operations; and a commit that rewrites every bucket's tree without
+changing its contents (which `commit_preserves_contents` says of the commit model) is invisible. -/
+
+/-- every write operation returns what the reference returns and leaves the reference's state -/
+theorem api_put_refines (db : TDB.DB K α) (h : TDB.AllWF db) (p : Spec.Path K) (k : K) (v : α) :
+    (TDB.put db p k v).1 = (Spec.put (TDB.abs db) p k v).1 ∧
+    TDB.abs (TDB.put db p k v).2 = (Spec.put (TDB.abs db) p k v).2 ∧ TDB.AllWF (TDB.put db p k v).2 :=
+  TDB.put_refines db h p k v
+
+theorem api_delete_refines (db : TDB.DB K α) (h : TDB.AllWF db) (p : Spec.Path K) (k : K) :
+    (TDB.delete db p k).1 = (Spec.delete (TDB.abs db) p k).1 ∧
+    TDB.abs (TDB.delete db p k).2 = (Spec.delete (TDB.abs db) p k).2 ∧ TDB.AllWF (TDB.delete db p k).2 :=
+  TDB.delete_refines db h p k
+
+theorem api_bucket_getter_refines (db : TDB.DB K α) (h : TDB.AllWF db) (p : Spec.Path K) (name : K) (s m : Bool) :
+    (TDB.bucketGetter db p name s m).1 = (Spec.bucketGetter (TDB.abs db) p name s m).1 ∧
+    TDB.abs (TDB.bucketGetter db p name s m).2 = (Spec.bucketGetter (TDB.abs db) p name s m).2 ∧
+    TDB.AllWF (TDB.bucketGetter db p name s m).2 :=
+  TDB.bucketGetter_refines db h p name s m
+
+theorem api_delete_bucket_refines (db : TDB.DB K α) (h : TDB.AllWF db) (p : Spec.Path K) (name : K) :
+    (TDB.deleteBucket db p name).1 = (Spec.deleteBucket (TDB.abs db) p name).1 ∧
+    TDB.abs (TDB.deleteBucket db p name).2 = (Spec.deleteBucket (TDB.abs db) p name).2 ∧
+    TDB.AllWF (TDB.deleteBucket db p name).2 :=
+  TDB.deleteBucket_refines db h p name
+
+/-- reads: point lookup, counter, full scan -/
+theorem api_reads_refine (db : TDB.DB K α) (h : TDB.AllWF db) (p : Spec.Path K) (k : K) :
+    TDB.get db p k = Spec.get (TDB.abs db) p k ∧ TDB.nextInt db p = Spec.nextInt (TDB.abs db) p ∧
+    TDB.scan db p = Spec.scan (TDB.abs db) p :=
+  ⟨TDB.get_refines db h p k, TDB.nextInt_refines db p, TDB.scan_refines db p⟩
+
+/-- any sequence of write operations on buckets at any depth -/
+theorem api_history_refines (db : TDB.DB K α) (h : TDB.AllWF db) (ops : List (TDB.Op K α)) :
+    TDB.abs (ops.foldl TDB.applyOp db) = ops.foldl Spec.applyTOp (TDB.abs db) ∧
+    TDB.AllWF (ops.foldl TDB.applyOp db) :=
+  TDB.applyOps_refine db h ops
+
+/-- commit is invisible in the reference when it keeps each bucket's contents -/
+theorem api_commit_invisible (f : Spec.Path K → Tree K (Spec.Item α) → Tree K (Spec.Item α)) (db : TDB.DB K α)
+    (hf : ∀ e ∈ db, (f e.1 e.2.tree).flatten = e.2.tree.flatten) :
+    TDB.abs (TDB.commitWith f db) = TDB.abs db :=
+  TDB.commitWith_refines f db hf
 
 end Jamm.Props.C01
